@@ -16,6 +16,7 @@ ENVVARS = ('MIDO_BACKEND', 'MIDO_DEFAULT_INPUT', 'MIDO_DEFAULT_OUTPUT',
 
 RECORDER_SRC = '''
 CALLS = []
+EXC = [AttributeError]
 '''
 
 MODULE_SRC = '''
@@ -83,6 +84,17 @@ def write_modules(d):
                 f.write(MODULE_SRC % {
                     'ioport': IOPORT_SRC if native else '',
                     'devices': DEVICES_SRC if devices else ''})
+    # a backend whose port constructors fail (after recording the attempt)
+    with open(os.path.join(d, 'mcfake_raising.py'), 'w') as f:
+        f.write(MODULE_SRC % {'ioport': IOPORT_SRC, 'devices': ''} + '''
+
+def _boom(self, name=None, **kwargs):
+    _r.CALLS.append((self.kind, name, dict(kwargs)))
+    raise _r.EXC[0]("constructor failed (injected)")
+
+
+Input.__init__ = Output.__init__ = IOPort.__init__ = _boom
+''')
     with open(os.path.join(d, 'mcfake_other.py'), 'w') as f:
         f.write(MODULE_SRC % {'ioport': '', 'devices': ''})
 
@@ -287,6 +299,42 @@ def run_case(mido, cfg, acc):
                 os.environ[k] = v
 
 
+def raising_cases(mido, acc):
+    """A port constructor that raises: the exception reaches the caller and
+    nothing else is constructed in its place (in particular no Input/Output
+    pair instead of a failing native IOPort)."""
+    import mc_fake_recorder as rec
+    from mido.backends.backend import Backend
+    for exc in (AttributeError, OSError, ValueError, KeyError, TypeError):
+        for op, kind in (('open_input', 'Input'), ('open_output', 'Output'),
+                         ('open_ioport', 'IOPort')):
+            acc.evals += 1
+            acc.nontrivial += 1
+            rec.EXC[0] = exc
+            for m in list(sys.modules):
+                if m.startswith('mcfake_'):
+                    del sys.modules[m]
+            del rec.CALLS[:]
+            case = {'kind': 'raising', 'op': op, 'exc': exc.__name__}
+            b = Backend('mcfake_raising')
+            try:
+                res = getattr(b, op)('Given')
+            except exc:
+                calls = [c for c in rec.CALLS if c[0] != 'import']
+                if [c[0] for c in calls] != [kind]:
+                    acc.violation(f'raising/{op}/other-constructors-tried',
+                                  f'{kind} raised {exc.__name__}; constructor '
+                                  f'calls were {calls}', case)
+            except Exception as e:
+                acc.violation(f'raising/{op}/wrong-exception',
+                              f'{kind} raised {exc.__name__} but {op} raised '
+                              f'{e!r}', case)
+            else:
+                acc.violation(f'raising/{op}/swallowed',
+                              f'{kind} raised {exc.__name__} but {op} returned '
+                              f'{res!r} (calls {rec.CALLS})', case)
+
+
 def grid(spec_idx):
     spec = SPECS[spec_idx]
     envsets = []
@@ -326,6 +374,7 @@ def worker(shard):
                     if via == 'name' and cfg['spec'][1]:
                         continue
                     run_case(mido, dict(cfg, via_set_backend=via), acc)
+            raising_cases(mido, acc)
             acc.sample({'set_backend': ['object', 'name']}, cap=1)
     finally:
         mido.set_backend(original_backend)
